@@ -12,7 +12,8 @@ ID = 'C01'
 LEVEL = 'proof'
 LEVEL_TEXT = ('Unbounded Lean theorems: (a) ALL SIZES of the hand-modelled classes (Properties/C01<Class>.lean, currently '
               'Toric2DCode L>=2, Planar2DCode and RotatedPlanar2DCode L>=1, HollowPlanar3DCode L>=1 with the operator-level rank '
-              'family, more as they are merged): the assembled matrices '
+              'family, RotatedToric3DCode Lx,Ly>=2 not both odd (wf + commutation + pairing incl. defect lines; rank by '
+              'instances), more as they are merged): the assembled matrices '
               'exist and satisfy ValidCodeL n k (commutation, logical commutation, pairing table, GF(2) rank n-k) for every '
               'lattice size, with closed forms for n, k, stabilizers and get_deformation; (b) the executable validity checker '
               'is sound for every code; commutation+pairing force rank <= n-k for every code; every per-qubit permutation of '
